@@ -49,3 +49,20 @@ Definition run (trunc : bool) (s : fs) (h : list (list N * cut)) : fs :=
 (* loading: absent file = empty state; otherwise the content must be a complete serialisation *)
 Definition loads (valid : list N -> bool) (s : fs) : bool :=
   match f_state s with None => true | Some d => valid d end.
+
+(* ---------- sessions: load, use, stop, load again ----------
+   The in-memory state M is abstract; [ser]/[de] are the JSON codec.  A session applies operations
+   to the loaded state — look-ups too change it (GetRouter stamps UsedAt) — and Stop saves what the
+   storage then holds. *)
+Section Sessions.
+  Variable M : Type.
+  Variable ser : M -> list N.
+  Inductive sop := SLookup (f : M -> M) | SWrite (f : M -> M).
+  Definition sapply (m : M) (o : sop) : M := match o with SLookup f => f m | SWrite f => f m end.
+  Definition is_write (o : sop) : bool := match o with SWrite _ => true | SLookup _ => false end.
+  Definition session (s : fs) (m0 : M) (ops : list sop) : fs :=
+    save true s (ser (fold_left sapply ops m0)) CNone.
+  (* a storage that writes the file only after a write operation *)
+  Definition session_skip_unmodified (s : fs) (m0 : M) (ops : list sop) : fs :=
+    if existsb is_write ops then session s m0 ops else s.
+End Sessions.
